@@ -242,11 +242,17 @@ func genHostileExt(r *Rng, max int) []string {
 	head := fmt.Sprintf("%02x", eid)
 	switch r.Intn(6) {
 	case 0, 1: // a string announcing more bytes than the message has
-		n := r.PickU(1, 20, 1<<16, 1<<20, 1<<24, 1<<31-1, 1<<31, 99999999999)
+		// lengths around every width an accumulator could have (int32, int64, uint64 and beyond)
+		n := r.pickStr("1", "20", "65536", "1048576", "16777216", "2147483647", "2147483648", "99999999999",
+			"9223372036854775807", "9223372036854775808", "9223372036854775829", "18446744073709551615",
+			"18446744073709551616", "18446744073709551636", "99999999999999999999", "340282366920938463463374607431768211456")
 		key := r.pickStr("v", "x", "added", "m")
-		pre := "d" + readerBstr([]byte(key)) + fmt.Sprintf("%d:", n)
+		pre := "d" + readerBstr([]byte(key)) + n + ":"
 		if r.Bool() {
-			pre = "d" + fmt.Sprintf("%d:", n) // the key itself
+			pre = "d" + n + ":" // the key itself
+		}
+		if r.Chance(30) {
+			pre = "d1:xl" + n + ":" // inside a list under an unknown key
 		}
 		return []string{head + hexs([]byte(pre)), strings.TrimPrefix(hexs(r.Bytes(r.Intn(8))), "-")}
 	case 2, 3: // nesting under an unknown key
